@@ -156,7 +156,7 @@ var inventory = []string{
 	"wkb.Unmarshal", "ewkb.Unmarshal", "ewkb.Scan", "wkt.Unmarshal", "geojson.Unmarshal", "igc.Read",
 	"xy.Misc", "xy.CentroidsWithExtras", "wkb.WriteRead", "hex.Decode", "geojson.FeatureCollection", "decode.CrossFormat", "decode.CrossFormat", "decode.Truncated", "decode.Truncated", "exact.Burst", "exact.Burst",
 	"geojson.MarshalSharedOpts", "geojson.MarshalSharedOpts", "wkt.MarshalSharedOpts", "wkb.UnmarshalSharedOpts", "geojson.MarshalSharedSlice", "geojson.MarshalSharedSlice",
-	"ls.Interpolate", "ls.Interpolate", "ls.Interpolate",
+	"ls.Interpolate", "ls.Interpolate", "ls.Interpolate", "decode.Owned", "decode.Owned", "decode.Owned",
 }
 
 // Option values are plain values that callers naturally create once and pass to
@@ -275,11 +275,20 @@ func buildPool(c Case) ([]*item, error) {
 		if !g.IsCollection() {
 			it.flat = t.FlatCoords()
 		}
+		// the encodings are parts of longer buffers (a row of a result set, a record of
+		// a file), at offsets 0, 3, 7, 1 and 4 in turn: where the ordinates fall relative
+		// to a machine word is not the caller's concern
+		inBuffer := func(b []byte, k int) []byte {
+			off := []int{0, 3, 7, 1, 4}[k%5]
+			buf := make([]byte, off+len(b)+5)
+			copy(buf[off:], b)
+			return buf[off : off+len(b) : off+len(b)]
+		}
 		if b, _, err := refwkb.Encode(g, i%2 == 1, refwkb.ISO); err == nil {
-			it.wkb = b
+			it.wkb = inBuffer(b, i)
 		}
 		if b, _, err := refwkb.Encode(g, i%2 == 0, refwkb.EWKB); err == nil {
-			it.ewkb = b
+			it.ewkb = inBuffer(b, i+2)
 		}
 		if s, err := refwkt.Write(g, nil); err == nil {
 			it.wkt = s
@@ -809,6 +818,45 @@ func execInner(pool []*item, c Call, geomRes func(geom.T, error) string, bytesRe
 			return "err:" + err.Error()
 		}
 		return buf.String()
+	case "decode.Owned":
+		// what a decoder returns is the caller's: overwritten (every ordinate, EMPTY
+		// points given coordinates, SRIDs changed), the same input decodes as before
+		var dec func() (geom.T, error)
+		switch c.B % 4 {
+		case 0:
+			if a.wkb == nil {
+				return "n/a"
+			}
+			dec = func() (geom.T, error) {
+				return wkb.Unmarshal(a.wkb, wkbcommon.WKBOptionEmptyPointHandling(wkbcommon.EmptyPointHandlingNaN))
+			}
+		case 1:
+			if a.ewkb == nil {
+				return "n/a"
+			}
+			dec = func() (geom.T, error) { return ewkb.Unmarshal(a.ewkb) }
+		case 2:
+			if a.wktb == nil {
+				return "n/a"
+			}
+			dec = func() (geom.T, error) { return wkt.Unmarshal(string(a.wktb)) }
+		default:
+			if a.json == nil {
+				return "n/a"
+			}
+			dec = func() (geom.T, error) {
+				var g geom.T
+				err := geojson.Unmarshal(a.json, &g)
+				return g, err
+			}
+		}
+		g1, err := dec()
+		first := canonGeom(g1, err)
+		if err == nil && g1 != nil {
+			model.Spoil(g1)
+		}
+		g2, err := dec()
+		return first + " / " + canonGeom(g2, err)
 	case "wkb.Unmarshal":
 		if a.wkb == nil {
 			return "n/a"
